@@ -207,7 +207,7 @@ impl Prop for C18 {
     fn default_runs(&self, tier: Tier) -> u64 {
         match tier {
             Tier::Quick => 1_500,
-            Tier::Thorough => 40_000,
+            Tier::Thorough => 24_000,
         }
     }
 
